@@ -145,3 +145,53 @@ pub fn run_crash_points(which: &'static str, tier: &str, seed: u64, n_cases: u64
   for r in parts { total.merge(r); }
   total
 }
+
+/// Exhaustive small-scope leg: every history of exactly `len` steps (for each len in `lens`) over the step alphabet of
+/// each curated shape, with all monitors on. Histories that let a partial top-down build run while changes are pending
+/// are mixed histories (K1 territory) and handled by the same classifier as the random mixed class.
+pub fn run_exhaustive(which: &'static str, tier: &str, seed: u64, lens: &[usize], replay: Option<u64>) -> Report {
+  let mut total = Report::new();
+  let shapes = gen::shapes();
+  let run_one = |shape: usize, len: usize, idx: u64, rep: &mut Report| {
+    let case = gen::shape_case(shape, len, idx);
+    let case_no = ((shape as u64) << 48) | ((len as u64) << 40) | idx;
+    let mut opts = opts_for(which, "exhaustive", tier, seed, case_no);
+    opts.pure_history = false;
+    opts.idempotence_probe = which == "C02";
+    opts.c03_probe = true;
+    opts.fresh_pie = false;
+    CaseRunner::new(&case, &opts, rep).run();
+  };
+  if let Some(c) = replay {
+    run_one((c >> 48) as usize, ((c >> 40) & 0xff) as usize, c & ((1 << 40) - 1), &mut total);
+    return total;
+  }
+  for (si, p) in shapes.iter().enumerate() {
+    let a = gen::shape_alphabet(p).len() as u64;
+    for &len in lens {
+      let n = a.pow(len as u32);
+      let parts = util::parallel(n, util::threads(), 64, Report::new, |i, rep: &mut Report| { run_one(si, len, i, rep); rep.alarm_total < 40 });
+      for r in parts { total.merge(r); }
+      total.add("exhaustive_histories", n);
+      total.seen("exhaustive_families", format!("{}: all {} histories of {} steps over {} step kinds", p.label, n, len, a));
+    }
+  }
+  total
+}
+
+/// File-backed slice (real PathBuf resource and real checkers inside builds) for C01 (top-down histories) and C03
+/// (pure bottom-up histories).
+pub fn run_files(which: &'static str, seed: u64, n: u64, replay: Option<u64>) -> Report {
+  let workdir = if std::path::Path::new("/dev/shm").is_dir() { std::path::PathBuf::from("/dev/shm") } else { std::path::PathBuf::from(std::env::var("PV_WORK").unwrap_or_else(|_| "/verif/.work".into())) };
+  let class = if which == "C03" { "pure-mixed" } else { "td-mixed" };
+  let one = |i: u64, rep: &mut Report| {
+    let case = make_case(class, seed ^ 0xF11E5, i);
+    crate::fileleg::run_case(&case, which, seed, i, &workdir, rep);
+  };
+  let mut total = Report::new();
+  if let Some(c) = replay { one(c, &mut total); return total; }
+  let parts = util::parallel(n, util::threads(), 64, Report::new, |i, rep: &mut Report| { one(i, rep); rep.alarm_total < 20 });
+  for r in parts { total.merge(r); }
+  total.add("file_backed_cases", n);
+  total
+}
